@@ -155,6 +155,7 @@ func (wb *workerBinder[T]) handleQueueSubscription(action string) {
 	switch action {
 	case "enqueued":
 		wb.worker.Metrics().incSubmitted()
+		vhook("sub.notify")
 		wb.worker.notifyToPullNextJobs()
 	}
 }
